@@ -428,7 +428,7 @@ func TestCheck(t *testing.T) {
 		for wi := range writers {
 			we := writers[wi]
 			sub := "encode_" + we.name
-			c.RapidIdx(sub, wi, c.N(400, 5000), 0, func(t *rapid.T) {
+			c.RapidIdx(sub, wi, c.N(400, 20000), 0, func(t *rapid.T) {
 				cs := Case{Writer: we.name, Content: genContent(t, we.name), Format: int(we.format), Hints: genHints(t)}
 				if we.name == "CODE128" && rapid.Bool().Draw(t, "forceset") {
 					if cs.Hints == nil {
